@@ -107,6 +107,7 @@ fn run_check(id: &str) -> i32 {
                 "C04" => {
                     part(&mut rep, "exploration", e1::check_c04);
                     part(&mut rep, "phase exploration", e1::check_phases_c04);
+                    part(&mut rep, "signal deaths", e1::check_c04_signal_deaths);
                     part(&mut rep, "binary scenarios", binbind::bind_c04)
                 }
                 "C06" => {
